@@ -5,14 +5,14 @@ CFG = dict(
     gen_obligations=["Inst.gen_cfg_fixed: the configuration read from the source (tail repair on open, index entry dropped on delete, replay re-creates index entries, MetadataSet logged first, checkpoint step order) is the one the theorems are proved for"],
     crate="nvh_c02",
     header=H + "From NV.Common Require Import WalFormat.\nFrom NV.C02 Require Import Model Run.\nOpen Scope N_scope.",
-    kinds={"gens": ("gens_case", "check_gens")},
+    kinds={"gens": ("gens_case", "check_gens"), "ckpt": ("ckpt_case", "check_ckpt")},
     known_classes={},
-    shard=3, no_enlarge=True,
-    rule="seeded put_durable/delete_durable sequences over 10 keys of all five key classes and 13 value shapes (+ short and 384-dim embeddings) on the real TensorStore; the real WAL file truncated at EVERY byte offset of each generation's appends, recovered, observed (get of every key + scan); up to three crash generations",
+    shard=3,
+    rule="seeded put_durable/delete_durable sequences over 10 keys of all five key classes and 13 value shapes (+ short and 384-dim embeddings) on the real TensorStore under SyncMode Immediate / Batched / Manual (explicit sync calls); the real WAL file truncated at EVERY byte offset of each generation's appends, recovered, observed (get of every key + scan); up to three crash generations; kind ckpt: the real snapshot + log files copied at the step boundaries inside checkpoint() (hook b979a711: snapshot saved / every byte of the marker record / log truncated), recovered, then more calls crashed at every byte and recovered with the snapshot; implementation-only probe of log rotation",
     trusted_base=COMMON_TB + [
         "modelled, not verified: bitcode payload (de)serialisation (premise deser (ser e) = Some e; the harness supplies the real payload bytes and the real replay decodes them), crc32fast (concrete Gallina CRC-32 compared byte-for-byte with every real log file), the file system below 'a file is a byte string; a crash keeps a prefix of unsynced appends; set_len/rename/File::create are atomic'; HashMap iteration order never observed (observations are per key id)",
     ],
-    assumptions=["cache-class keys are outside the property (documented non-durable) and are not observed", "the embedding slab dimension is the default 384 (the only one reachable through TensorStore::open_durable / recover)"],
+    assumptions=["cache-class keys are outside the property (documented non-durable) and are not observed", "theorems cover put_durable/delete_durable sequences where only embedding-class keys carry an `_embedding` (class plain); the observation equality inside the three records of a delete of an indexed embedding key, checkpoint step boundaries, non-embedding keys with `_embedding`, Batched/Manual sync and rotation are covered by the correspondence check + oracle only", "the embedding slab dimension is the default 384 (the only one reachable through TensorStore::open_durable / recover)"],
 )
 MANIFEST = dict(
     text="WAL record framing, replay and crash-prefix recovery for EVERY byte offset, tail repair on open and the multi-generation statement are Coq theorems (Common/WalFormat.v, all inputs); on top, the durable store model (entity index, embedding slab, metadata, put/delete_durable logging, from_entries, recover, checkpoint) with theorems that recovery never fails and returns the state of an acknowledged-covering prefix; the model is compared with the real TensorStore at every truncation offset of the real log over up to three crash generations and the property oracle is evaluated on the implementation's own observations.",
